@@ -62,6 +62,10 @@ func (k Keeper) Open(ctx sdk.Context, msg *types.MsgOpen) (*types.MsgOpenRespons
 
 	// check if existing mtp to consolidate
 	existingMtp := k.CheckSameAssetPosition(ctx, msg)
+	if existingMtp != nil && existingMtp.AmmPoolId != msg.PoolId {
+		// a position in another pool must not absorb this one: custody and liabilities are accounted per pool
+		existingMtp = nil
+	}
 
 	if existingMtp == nil {
 		// opening new position
